@@ -78,6 +78,15 @@ class Sim:
         self.completion = []  # chain indices in completion order (filled by chainsim)
         self.main_name = None
         self.interrupt_pending = set()  # task names with a pending broadcast interrupt
+        # Every object that crossed a simulated process boundary is kept alive until the
+        # run ends, so that id() values (mici keys state caches by id(system)) are never
+        # reused within a run: otherwise cache hits would depend on allocator history.
+        self.keepalive = []
+
+    def loads(self, data):
+        obj = pickle.loads(data)
+        self.keepalive.append(obj)
+        return obj
 
     # ---- scheduling core ------------------------------------------------------------
     def register_main(self):
@@ -158,6 +167,9 @@ class Sim:
         if self.aborted:
             raise SimAbort
 
+    def deliver_interrupt(self):
+        self._deliver_interrupt(threading.current_thread().name)
+
     def _deliver_interrupt(self, me):
         # a broadcast interrupt reaches the parent at its next scheduling point
         if me == self.main_name and me in self.interrupt_pending:
@@ -171,14 +183,12 @@ class Sim:
             return
         with self.cv:
             self._switch(me)
-        self._deliver_interrupt(me)
 
     def block_until(self, cond, why=""):
         me = threading.current_thread().name
         with self.cv:
             if cond():
                 self._switch(me)
-                self._deliver_interrupt(me)
                 return
             self.tasks[me]["blocked"] = cond
             self.log.add("block", me, why)
@@ -186,7 +196,6 @@ class Sim:
                 self._switch(me)
             finally:
                 self.tasks[me]["blocked"] = None
-        self._deliver_interrupt(me)
 
     def spawn(self, name, fn):
         def body():
@@ -264,15 +273,18 @@ class SimQueue:
     def get(self, block=True):
         sim = _CURRENT
         sim.yield_("get")
+        sim.deliver_interrupt()
         if not self.items:
             if not block:
                 raise _queue.Empty
             sim.block_until(lambda: bool(self.items), "get-wait")
+            sim.deliver_interrupt()
         sim.log.add("get", self.qid, threading.current_thread().name)
-        return pickle.loads(self.items.pop(0))
+        return sim.loads(self.items.pop(0))
 
     def empty(self):
         _CURRENT.yield_("empty")
+        _CURRENT.deliver_interrupt()
         return not self.items
 
 
@@ -302,8 +314,8 @@ class SimAsyncResult:
         for n in self.names:
             t = sim.tasks[n]
             if "error" in t:
-                raise pickle.loads(pickle.dumps(t["error"]))
-            out.append(pickle.loads(pickle.dumps(t["result"])))
+                raise sim.loads(pickle.dumps(t["error"]))
+            out.append(sim.loads(pickle.dumps(t["result"])))
         return out
 
 
@@ -312,14 +324,14 @@ class SimPool:
         self.sim = sim
         self.n_process = sim.cpu_count if n_process is None else n_process
         self.names = []
-        self.n_calls = 0
+        sim.n_pools = getattr(sim, "n_pools", 0) + 1
+        self.pool_id = sim.n_pools
 
     def starmap_async(self, fn, arglist):
         names = []
-        self.n_calls += 1
         for i, args in enumerate(arglist):
-            args = pickle.loads(pickle.dumps(args))  # process boundary
-            name = f"worker{self.n_calls}_{i}"
+            args = self.sim.loads(pickle.dumps(args))  # process boundary
+            name = f"w{self.pool_id:02d}_{i}"
             self.sim.spawn(name, lambda a=args: fn(*a))
             names.append(name)
         self.names.extend(names)
